@@ -351,6 +351,10 @@ def run(chk, replay=None):
         ent[2].add(where)
         ent[3] += 1
     for sig, (detail, rep, wheres, n) in found.items():
+        if sig.startswith("derived:"):
+            # laws that hold on the reference tree but are not sentences of C11: reported, never an alarm
+            chk.spec_drift(f"{sig}: {n} record(s) ({detail})")
+            continue
         chk.violation(sig, f"{n} record(s) rejected ({', '.join(sorted(w for w in wheres if w)) or 'all'}); first: {detail}", rep)
     for k, d in drift.items():
         chk.spec_drift(f"{k}: value outside the regions the property speaks about differs from Lineshape.tla: {d}")
